@@ -134,6 +134,38 @@ func GenCodec(r *rand.Rand) *profile.Profile {
 			p.Sample = append(p.Sample, s)
 		}
 	}
+	// size classes: now and then one repeated field is blown up so that the encoding of a single
+	// nested message (or string) crosses a length-prefix boundary (2^7, 2^14, 2^21 bytes)
+	if r.Intn(40) == 0 {
+		big := []int{20, 40, 64, 127, 128, 129, 1500, 3000, 6000, 17000}[r.Intn(10)]
+		if r.Intn(50) == 0 {
+			big = 400000 + r.Intn(400000)
+		}
+		switch k := r.Intn(4); {
+		case k == 0 && len(p.Sample) > 0 && nl > 0:
+			s := p.Sample[r.Intn(len(p.Sample))]
+			for len(s.Location) < big {
+				s.Location = append(s.Location, p.Location[r.Intn(nl)])
+			}
+		case k == 1 && nl > 0 && nf > 0:
+			l := p.Location[r.Intn(nl)]
+			for len(l.Line) < big {
+				l.Line = append(l.Line, profile.Line{Function: p.Function[r.Intn(nf)], Line: pi(), Column: pi()})
+			}
+		case k == 2 && len(p.Sample) > 0:
+			s := p.Sample[r.Intn(len(p.Sample))]
+			if s.Label == nil {
+				s.Label = map[string][]string{}
+			}
+			var vs []string
+			for i := 0; i < big && i < 20000; i++ {
+				vs = append(vs, fmt.Sprintf("v%d", i))
+			}
+			s.Label["many"] = vs
+		default:
+			p.Comments = append(p.Comments, strings.Repeat("c", big))
+		}
+	}
 	return p
 }
 
